@@ -476,9 +476,27 @@ func (a *c14Agg) tryMisrouted(in *c14Inst, round int, foreign any) {
 	ctx := r.ctx
 	key := [2]int{in.id, round}
 	form := ctx.Ch.Draw("misrouted-agg-form", 2) * 2 // out==acc or fresh
+	// the aggregator's accumulator is the first or the second operand (both orders occur in callers)
+	swapped := ctx.Ch.Bool("misrouted-operand-order")
+	before := core.NewSweep().FootprintOf(a.acc[key]).Hash
 	var err error
-	pk, site, msg := core.Protect(func() { _, err = r.aggregate(a.protos, in, round, a.acc[key], foreign, form) })
+	pk, site, msg := core.Protect(func() {
+		if swapped {
+			if form == 0 {
+				form = 1
+			}
+			_, err = r.aggregate(a.protos, in, round, foreign, a.acc[key], form)
+		} else {
+			_, err = r.aggregate(a.protos, in, round, a.acc[key], foreign, form)
+		}
+	})
 	ctx.Count("oracle.mismatched-share-rejected", 1)
+	if !pk && err != nil && core.NewSweep().FootprintOf(a.acc[key]).Hash != before {
+		// "rejected rather than combined": the refusal leaves the accumulator as it was, the genuine shares that
+		// follow are aggregated into it
+		r.fail("mismatch", c14KindNames[in.kind]+".AggregateShares|refusal-changed-the-accumulator", "aggregating a share of another instance into %s was refused with an error, and the accumulator (out %s) is not what it was before the call", in, map[bool]string{true: "is the second operand", false: "is the first operand or distinct"}[swapped])
+		return
+	}
 	if pk {
 		r.fail("mismatch", c14KindNames[in.kind]+".AggregateShares|panic", "aggregating a share of another instance into %s panicked in %s: %s", in, site, msg)
 		return
